@@ -202,10 +202,22 @@ class Gen:
         self.traces.append(t)
         return t
 
+    def model(self, name, inputs, out, coq, module, num_fn, sampler=None, tol=1e-11, note=""):
+        """register a HAND-WRITTEN generic model function (theories/Model/<module>.v, qualified name `coq`,
+        first argument the ops record) for the numeric correspondence T-num: it is extracted with the traces,
+        run on OCaml floats and compared with num_fn (the library call) on the same inputs.
+        out: a shape name, 'B' (bool) or 'O:<shape>' (option; the library returning None / raising maps to None)"""
+        t = Trace(name, inputs, out, None, None, num_fn, sampler, tol, note)
+        t.coq, t.module = coq, module
+        self.traces.append(t)
+        return t
+
     # ------------------------------------------------------------------ emission
     def coq_text(self):
         out = [HEADER]
         for t in self.traces:
+            if t.term is None:
+                continue
             binders = " ".join(f"({an} : {coq_type(sh)})" for an, sh in t.inputs)
             lets = "".join(f"  let '{input_pattern(an, sh)} := {an} in\n" for an, sh in t.inputs if sh != 'S')
             if t.note:
@@ -213,12 +225,16 @@ class Gen:
             out.append(f"Definition {t.name} {binders} : {coq_type(t.out)} :=\n{lets}  {t.term}.\n\n")
         out.append("End Gen.\n")
         for t in self.traces:
+            if t.term is None:
+                continue
             out.append(f"Arguments {t.name} {{T}} O.\n#[export] Hint Unfold {t.name} : smgen.\n")
         return "".join(out)
 
     def extract_text(self, modname):
-        names = " ".join(t.name for t in self.traces)
-        return (f"From SMgen Require Import {modname}.\nRequire Extraction.\nRequire Import ExtrOcamlBasic.\n"
+        names = " ".join(getattr(t, 'coq', None) or t.name for t in self.traces)
+        mods = sorted({t.module for t in self.traces if getattr(t, 'module', None)})
+        imp = "".join(f"From SM Require Import {m}.\n" for m in mods)
+        return (f"{imp}From SMgen Require Import {modname}.\nRequire Extraction.\nRequire Import ExtrOcamlBasic.\n"
                 f"Extraction Language OCaml.\nSet Extraction Output Directory \".\".\n"
                 f"Extraction \"{modname.lower()}_ml.ml\" {names}.\n")
 
@@ -235,7 +251,8 @@ class Gen:
                 n = int(np.prod(SHAPES[sh])) if sh != 'S' else 1
                 args.append(_ocaml_build(sh, idx))
                 idx += n
-            lines.append(f"  | \"{t.name}\" -> {_ocaml_flatten(t.out)} ({M}.{t.name} fops {' '.join(args)})\n")
+            fname = (getattr(t, 'coq', None) or t.name).split('.')[-1]
+            lines.append(f"  | \"{t.name}\" -> {_ocaml_flatten(t.out)} ({M}.{fname} fops {' '.join(args)})\n")
         lines.append("  | _ -> failwith (\"unknown trace \" ^ name)\n")
         lines.append(DRIVER_MAIN)
         return "".join(lines)
@@ -262,6 +279,10 @@ def _ocaml_build(sh, idx):
 
 
 def _ocaml_flatten(sh):
+    if sh == 'B':
+        return "(fun b -> [if b then 1.0 else 0.0])"
+    if sh.startswith('O:'):
+        return f"(fun o -> match o with None -> raise Model_none | Some x -> {_ocaml_flatten(sh[2:])} x)"
     shape = SHAPES[sh]
     if sh == 'S':
         return "(fun x -> [x])"
@@ -276,6 +297,7 @@ def _ocaml_flatten(sh):
 
 DRIVER_PRELUDE = """(* GENERATED driver: instantiates the extracted scalar-generic definitions with OCaml floats *)
 open @M@
+exception Model_none
 let rec pos_to_float (p : positive) : float = match p with
   | XH -> 1.0 | XO q -> 2.0 *. pos_to_float q | XI q -> 2.0 *. pos_to_float q +. 1.0
 let z_to_float (z : z) : float = match z with Z0 -> 0.0 | Zpos p -> pos_to_float p | Zneg p -> -. (pos_to_float p)
@@ -299,7 +321,8 @@ let () =
         (try
           let r = dispatch name a in
           print_string (String.concat " " (List.map (Printf.sprintf "%h") r)); print_newline ()
-        with e -> print_string ("ERR " ^ Printexc.to_string e); print_newline ())
+        with Model_none -> print_string "NONE"; print_newline ()
+           | e -> print_string ("ERR " ^ Printexc.to_string e); print_newline ())
     done
   with End_of_file -> ()
 """
